@@ -1022,6 +1022,20 @@ pub fn random_case(r: &mut Rng, focus: Focus) -> VmCase {
             })
             .collect();
     }
+    if r.chance(0.08) {
+        // hostile state: ragged / too many / failing answers
+        let script = match r.below(4) {
+            0 => Script::Fail("state failure".into()),
+            1 => Script::Fixed((0..r.below(9)).map(|i| vec![i as Word; r.below(5)]).collect()),
+            2 => Script::Fixed(vec![vec![7; 3000]; 4]),
+            _ => Script::Fixed(vec![]),
+        };
+        if r.chance(0.5) {
+            case.pre.script = script;
+        } else {
+            case.post.script = script;
+        }
+    }
     let sols = case.solutions.clone();
     let len = match r.below(4) {
         0 => 3 + r.below(8),
